@@ -102,6 +102,10 @@ def eval_any(case, rng):
     flows = []
     for i in range(nfl):
         flows.append(gen.random_quic_flow(rng, i, napp=rng.choice([2, 6])) if rng.random() < 0.4 else gen.random_tls_flow(rng, i, nmax=8, segkinds=tcpcap.CUT_KINDS, perturb=rng.random() < 0.2, duplex=rng.random() < 0.25, repack=rng.random() < 0.15))
+    if case["i"] % 12 == 5:
+        # TLS 1.3 with a HelloRetryRequest (two plaintext ClientHellos on one connection): what is exported for it is nobody's claim, but "whatever the input" the
+        # output must be a well-formed capture
+        flows.append(gen.random_tls_flow(rng, len(flows), nmax=6, version=0x0304, code=rng.choice([0x1301, 0x1302, 0x1303]), hrr=True, min_records=1))
     noise = []
     for k in range(rng.choice([0, 0, 1, 3])):
         kind = rng.choice(["http", "udp", "udpq", "other", "link"])
